@@ -89,7 +89,8 @@ TStepImpl ==
 
 TStepProp ==
   LET r == Rec[l] IN
-  /\ LET m == MonStep(mon, r.s, r.ret, r.panic) IN
+  /\ LET m == IF r.s.a \in {"nev", "nopen", "nterm"} THEN NetStep(mon, r.s, r.ret, r.panic)
+                                                         ELSE MonStep(mon, r.s, r.ret, r.panic) IN
        /\ mon' = Forgive(m)
        /\ (m.bad # "" => PrintT(<<"BAD", l, m.bad>>))
   /\ UNCHANGED <<mvars, hist, out>>
@@ -102,11 +103,19 @@ TQuiesce ==
                /\ (m.bad # "" => PrintT(<<"BAD", l, m.bad>>))
           /\ UNCHANGED <<mvars, hist, out>>
 
+TNetQuiesce ==
+  /\ Rec[l].e = "nquiesce"
+  /\ LET m == NetQuiesce(mon) IN
+       /\ mon' = Forgive(m)
+       /\ (m.bad # "" => PrintT(<<"BAD", l, m.bad>>))
+  /\ UNCHANGED <<mvars, hist, out>>
+
 TNext == /\ l <= Len(Rec)
          /\ l' = l + 1
          /\ \/ TReset
             \/ (Rec[l].e = "step" /\ IF Mode = "impl" THEN TStepImpl ELSE TStepProp)
             \/ TQuiesce
+            \/ TNetQuiesce
 
 TSpec == TInit /\ [][TNext]_tvars
 
